@@ -266,12 +266,51 @@ impl Cast<Time> for Option<bool> {
     }
 }
 
+/// What a NaT becomes in a plain numeric target: the target's null when it has one (NaN for
+/// floats), otherwise the converted raw value as before.
+#[cfg(feature = "time")]
+trait NatAs: Sized {
+    #[inline]
+    fn nat_as(raw: Self) -> Self {
+        raw
+    }
+}
+#[cfg(feature = "time")]
+impl NatAs for u8 {}
+#[cfg(feature = "time")]
+impl NatAs for u64 {}
+#[cfg(feature = "time")]
+impl NatAs for i32 {}
+#[cfg(feature = "time")]
+impl NatAs for usize {}
+#[cfg(feature = "time")]
+impl NatAs for isize {}
+#[cfg(feature = "time")]
+impl NatAs for bool {}
+#[cfg(feature = "time")]
+impl NatAs for f32 {
+    #[inline]
+    fn nat_as(_raw: f32) -> f32 {
+        f32::NAN
+    }
+}
+#[cfg(feature = "time")]
+impl NatAs for f64 {
+    #[inline]
+    fn nat_as(_raw: f64) -> f64 {
+        f64::NAN
+    }
+}
+
 #[cfg(feature = "time")]
 macro_rules! impl_time_cast {
     ($($T: ty),*) => {
         $(
             impl<U: TimeUnitTrait> Cast<$T> for DateTime<U> {
-                #[inline] fn cast(self) -> $T { Cast::<i64>::cast(self).cast() }
+                #[inline] fn cast(self) -> $T {
+                    let v: $T = Cast::<i64>::cast(self).cast();
+                    if self.is_none() { <$T as NatAs>::nat_as(v) } else { v }
+                }
             }
 
             impl<U: TimeUnitTrait> Cast<Option<$T>> for DateTime<U> {
@@ -286,7 +325,10 @@ macro_rules! impl_time_cast {
 
 
             impl Cast<$T> for TimeDelta {
-                #[inline] fn cast(self) -> $T { Cast::<i64>::cast(self).cast() }
+                #[inline] fn cast(self) -> $T {
+                    let v: $T = Cast::<i64>::cast(self).cast();
+                    if self.is_none() { <$T as NatAs>::nat_as(v) } else { v }
+                }
             }
 
             impl Cast<Option<$T>> for TimeDelta {
@@ -300,7 +342,10 @@ macro_rules! impl_time_cast {
             }
 
             impl Cast<$T> for Time {
-                #[inline] fn cast(self) -> $T { Cast::<i64>::cast(self).cast() }
+                #[inline] fn cast(self) -> $T {
+                    let v: $T = Cast::<i64>::cast(self).cast();
+                    if self.is_none() { <$T as NatAs>::nat_as(v) } else { v }
+                }
             }
 
             impl Cast<Option<$T>> for Time {
@@ -336,6 +381,10 @@ impl<U: TimeUnitTrait> Cast<Option<i64>> for DateTime<U> {
 impl Cast<i64> for TimeDelta {
     #[inline]
     fn cast(self) -> i64 {
+        // NaT is encoded in `months`: it maps to the i64 null, as in `From<i64> for TimeDelta`
+        if self.is_nat() {
+            return i64::MIN;
+        }
         let months = self.months;
         if months != 0 {
             panic!("not support cast TimeDelta to i64 when months is not zero")
@@ -349,6 +398,9 @@ impl Cast<i64> for TimeDelta {
 impl Cast<Option<i64>> for TimeDelta {
     #[inline]
     fn cast(self) -> Option<i64> {
+        if self.is_nat() {
+            return None;
+        }
         let months = self.months;
         if months != 0 {
             panic!("not support cast TimeDelta to i64 when months is not zero")
